@@ -1060,6 +1060,13 @@ func (p *RPCCompiler) processRepeatedField(message protoref.Message, fd protoref
 			}
 
 			list.Append(protoref.ValueOfMessage(fieldMsg))
+		case DataTypeEnum:
+			val, err := p.getEnumValue(rpcField.EnumName, element)
+			if err != nil {
+				return err
+			}
+
+			list.Append(val)
 		default:
 			list.Append(p.setValueForKind(field.Type, element))
 		}
